@@ -10,9 +10,13 @@ import RV.Proofs.C01EosOrd8
 import RV.Proofs.C01EosAllN
 import RV.Proofs.C01Janus
 import RV.Proofs.C01JanusWords
+import RV.Proofs.C01JanusW10
 import RV.Proofs.C01Ias15
 import RV.Proofs.C01Leapfrog
 import RV.Proofs.C01Mercurius
+import RV.Proofs.C01BsLinear
+import RV.Proofs.C01Trace
+import RV.Proofs.C01Ias15Sweep
 import RV.Proofs.C01Flow
 /-
   C01 — every integrator converges to the true N-body solution at its advertised order.   **PARTIAL.**
@@ -184,6 +188,14 @@ theorem c01_janus_order_words : (∀ o ∈ [2, 4, 6], ∀ s ∈ janusStep.lookup
     (∀ s ∈ janusStep.lookup 10, WordOrder s (List.replicate 7 6) 0 tolJanus) :=
   ⟨Janus.words_2_4_6, Janus.words_8, Janus.words_10_partial⟩
 
+/-- **order 10 directly on all 2047 A/B words** (kernel time sharded over the 8 three-letter prefixes; each shard = the words
+    below its prefix and the prefix's prefixes; together they are all words of length ≤ 10) -/
+theorem c01_janus_order10_all_words :
+    ((∀ u ∈ Janus.prefixes3, sizeT (mkTPath (List.replicate 11 10) u 11 0 0 1) = 258) ∧
+      sizeT (mkT (List.replicate 11 10) 11 0 0 1) = 2047 ∧ 8 * 255 + 7 = 2047) ∧
+    ∀ u ∈ Janus.prefixes3, ∀ s ∈ janusStep.lookup 10, WordOrderOn s (List.replicate 11 10) u 0 tolJanus :=
+  ⟨Janus.words_10_cover, Janus.words_10_all⟩
+
 /-! ### IAS15 constants -/
 theorem c01_ias15_constants : AllNear iasRR (rrOf iasH) tolIAS ∧ AllNear iasC (cOf iasH) tolIAS ∧ AllNear iasD (dOf iasH) tolIAS :=
   ⟨Ias15.rr_differences, Ias15.c_recurrence, Ias15.d_recurrence⟩
@@ -191,6 +203,31 @@ theorem c01_ias15_radau : (iasH.getD 0 1 = 0 ∧ (∀ x ∈ iasH, Near (radau8 x
     (∀ p ∈ iasH.zip iasH.tail, p.1 < p.2) ∧ (∀ x ∈ iasH, 0 ≤ x ∧ x < 1)) ∧
     (∀ k ∈ List.range 15, Near (sumQ ((iasW.zip iasH).map (fun p => p.1 * p.2 ^ k))) (2 / ((k : Rat) + 1)) tolIAS) :=
   ⟨Ias15.radau_nodes, Ias15.w_quadrature⟩
+
+/-- the predictor-corrector sweep as linear algebra on the tables of the current source: the end-of-step weights integrate
+    a0 + Σ b_j s^{j+1} term by term; the tables c and d are mutually inverse (b = C·g, g = D·b) -/
+theorem c01_ias15_tables_inverse :
+    (iasPosW = (List.range 8).map (fun (j : Nat) => 1 / (((j : Rat) + 1) * ((j : Rat) + 2))) ∧
+      iasVelW = (List.range 8).map (fun (j : Nat) => 1 / ((j : Rat) + 1))) ∧
+    (∀ i ∈ List.range 7, ∀ j ∈ List.range 7, Near (Ias.triProd iasC iasD i j) (if i = j then 1 else 0) tolIAS) :=
+  ⟨Ias15Sweep.update_weights, Ias15Sweep.c_d_inverse⟩
+/-- **one corrector sweep is the Gauss–Radau collocation update**: for a force that depends on time only, a(s) = s^{p+1}
+    (p ≤ 6), one sweep from any starting b returns b = e_p; hence (the sweep being linear in the sampled forces) every force
+    polynomial of degree ≤ 7 in time is represented exactly after one sweep -/
+theorem c01_ias15_sweep_exact : ∀ p ∈ List.range 7, ∀ b0 ∈ [[0, 0, 0, 0, 0, 0, 0], [1, -2, 3/7, 5, -1/3, 2, 9]],
+    ∀ j ∈ List.range 7, Near ((Ias.sweep iasRR iasC iasD (Ias.samples iasH (fun s => s ^ (p + 1))) b0).getD j 0)
+      (if j = p then 1 else 0) tolIAS := Ias15Sweep.sweep_exact
+/-- **the fact that makes IAS15 15th order**: with the b's of one sweep the end-of-step velocity is exact for forces sᵖ up to
+    p = 14 and the position up to p = 13 (Gauss–Radau quadrature with 8 nodes), and not beyond -/
+theorem c01_ias15_step_exact : (∀ p ∈ List.range 15,
+      Near (Ias.increment iasVelW (if p = 0 then 1 else 0) (Ias.sweep iasRR iasC iasD (Ias.samples iasH (fun s => s ^ p)) [0, 0, 0, 0, 0, 0, 0]))
+        (1 / ((p : Rat) + 1)) tolIAS) ∧
+    (∀ p ∈ List.range 14,
+      Near (Ias.increment iasPosW (if p = 0 then 1 else 0) (Ias.sweep iasRR iasC iasD (Ias.samples iasH (fun s => s ^ p)) [0, 0, 0, 0, 0, 0, 0]))
+        (1 / (((p : Rat) + 1) * ((p : Rat) + 2))) tolIAS) ∧
+    ¬ Near (Ias.increment iasVelW 0 (Ias.sweep iasRR iasC iasD (Ias.samples iasH (fun s => s ^ 15)) [0, 0, 0, 0, 0, 0, 0])) (1 / 16) (1 / 10^9) ∧
+    ¬ Near (Ias.increment iasPosW 0 (Ias.sweep iasRR iasC iasD (Ias.samples iasH (fun s => s ^ 14)) [0, 0, 0, 0, 0, 0, 0])) (1 / (15 * 16)) (1 / 10^9) :=
+  Ias15Sweep.step_exact
 
 /-! ### LEAPFROG -/
 theorem c01_leapfrog : leapfrogStep = [⟨0, 1/2, 1⟩, ⟨2, 0, 0⟩, ⟨1, 1, 0⟩, ⟨0, 1/2, 1⟩] ∧
@@ -218,6 +255,55 @@ theorem c01_mercurius_unsync : norm merc_two_unsync = norm (merc_safe ++ merc_sa
     norm merc_three_unsync_resync = norm (merc_safe ++ merc_safe ++ merc_safe) ∧
     kickSum merc_three_unsync_resync = 3 ∧ driftSum merc_three_unsync_resync = 3 ∧ jumpSum merc_three_unsync_resync = 3 ∧
     merc_safe_from_unsync = merc_sync_only ++ merc_safe := Mercurius.unsync
+
+/-! ### TRACE on its splitting path (encounter checks not interpreted: no pericentre flag, or PARTIAL_BS) -/
+/-- all three peri modes, no pericentre flag: kick ½ (own force evaluation), jump ½, Kepler + centre of mass 1, jump ½, kick ½ —
+    consistent, palindrome, fresh, jump sum 1, order exactly 2, and the same word as MERCURIUS' safe step -/
+theorem c01_trace_splitting_step :
+    (tracePeriModes = [("REB_TRACE_PERI_PARTIAL_BS", 0), ("REB_TRACE_PERI_FULL_BS", 1), ("REB_TRACE_PERI_FULL_IAS15", 2)] ∧
+      traceStep.map (·.1) = [(0, 0, 0), (0, 0, 1), (0, 1, 0), (0, 1, 1), (1, 0, 0), (1, 0, 1), (2, 0, 0), (2, 0, 1)] ∧
+      traceJumpNoop = [(0, false), (1, true)]) ∧
+    ∀ pm ∈ [0, 1, 2], ∀ s ∈ traceStep.lookup (pm, 0, 0), s = Trace.dh ∧ Consistent s 0 ∧ Palindrome s ∧ Fresh s ∧
+      jumpSum s = 1 ∧ Quadrature s 2 0 ∧ WordOrder s [2, 2, 2] 0 0 ∧ ¬ WordOrder s [3, 3, 2] 0 (1/100) ∧ norm s = norm merc_safe :=
+  ⟨Trace.counts, Trace.splitting_step⟩
+/-- pericentre flag with PARTIAL_BS: the same scheme without jump steps; a rejected first attempt restores the backup and
+    executes exactly the same schedule again -/
+theorem c01_trace_pericentre_and_rejection :
+    (∀ s ∈ traceStep.lookup (0, 1, 0), s = [⟨2, 0, 0⟩, ⟨1, 1/2, 0⟩, ⟨0, 1, 1⟩, ⟨2, 0, 0⟩, ⟨1, 1/2, 0⟩] ∧
+      Consistent s 0 ∧ Palindrome s ∧ Fresh s ∧ WordOrder s [2, 2, 2] 0 0) ∧
+    (∀ e ∈ traceStep, e.1.2.2 = 1 → ∀ s0 ∈ traceStep.lookup (e.1.1, e.1.2.1, 0), e.2 = s0 ++ [⟨5, 0, 0⟩] ++ s0) :=
+  ⟨Trace.pericentre_partial, Trace.rejected_attempt⟩
+
+/-! ### BS (Gragg–Bulirsch–Stoer): sequence, modified midpoint, Aitken–Neville extrapolation -/
+/-- `sequence[k] = 4k+2`, `coeff[k] = (1/sequence[k])²`, 9 rows; and the hand model of `extrapolate` is the linear map the
+    translator obtained by executing the source's `extrapolate` on a symbolic table, for every k = 1..8 (rows y1, C, D[0..k]) -/
+theorem c01_bs_model_is_source : (bsSequenceLength = 9 ∧ bsSequence = (List.range 9).map Gbs.seq ∧ bsCoeffs = (List.range 9).map Gbs.coeff) ∧
+    bsExtrapolate.map (·.1) = [1, 2, 3, 4, 5, 6, 7, 8] ∧
+    (∀ e ∈ bsExtrapolate, 1 ≤ e.1 ∧ e.1 ≤ 8 ∧ e.2.length = e.1 + 3 ∧
+      Bs.transpose e.2 (e.1 + 1) = (List.range (e.1 + 1)).map (Bs.modelColumn e.1)) :=
+  ⟨Bs.sequence_formula, Bs.extrapolate_count, Bs.extrapolate_model⟩
+/-- **the algebraic heart of GBS**: the extrapolated value is linear in the modified-midpoint results, and whenever these are a
+    polynomial of degree ≤ k in the abscissa h² = (H/n_i)² (any rational coefficients), row k returns the polynomial's value at
+    h = 0 — for every row k ≤ 8 the code can reach; the next power is *not* reproduced (sharp) -/
+theorem c01_bs_extrapolation_exact :
+    (∀ (a : Rat) (x T U : Nat → Rat) (k : Nat), Gbs.extrap x (fun i => T i + a * U i) k = Gbs.extrap x T k + a * Gbs.extrap x U k) ∧
+    (∀ k ∈ List.range 9, ∀ a : List Rat, a.length ≤ k + 1 →
+      Gbs.extrap Gbs.coeff (fun i => Gbs.polyFrom a 0 (Gbs.coeff i)) k = a.headD 0) ∧
+    (∀ k ∈ List.range 9, Gbs.extrap Gbs.coeff (fun i => Gbs.coeff i ^ (k + 1)) k ≠ 0) :=
+  ⟨BsLinear.extrap_linear, BsLinear.extrap_exact, fun k hk => (Bs.monomials k hk).2.1⟩
+/-- modified midpoint + extrapolation, rows 0..k, integrates y' = (t − c)ᵈ exactly for d ≤ 2k+1 and not for d = 2k+2
+    (k ≤ 5, two intervals) — what the search observes on the compiled code with a user ODE -/
+theorem c01_bs_quadrature_exact : ∀ k ∈ List.range 6, ∀ p ∈ [((0 : Rat), (1 : Rat), (0 : Rat)), (-3/7, 5/3, 2/9)],
+    (∀ d ∈ List.range (2 * k + 2),
+      Gbs.gbs (fun t _ => (t - p.2.2) ^ d) p.1 p.2.1 (7/10) k =
+        7/10 + ((p.1 + p.2.1 - p.2.2) ^ (d + 1) - (p.1 - p.2.2) ^ (d + 1)) / ((d : Rat) + 1)) ∧
+    Gbs.gbs (fun t _ => (t - p.2.2) ^ (2 * k + 2)) p.1 p.2.1 (7/10) k ≠
+        7/10 + ((p.1 + p.2.1 - p.2.2) ^ (2 * k + 3) - (p.1 - p.2.2) ^ (2 * k + 3)) / ((2 * k + 2 : Nat) + 1 : Rat) :=
+  Bs.quadrature_exact
+/-- a state-dependent instance, y' = y on [0, ½]: each further row reduces the error by more than a factor 100 -/
+theorem c01_bs_linear_ode_rows : ∀ k ∈ List.range 4,
+    let e := fun k => Gbs.gbs (fun _ y => y) 0 (1/2) 1 k - 1648721270700128 / 1000000000000000
+    (if e (k+1) < 0 then -(e (k+1)) else e (k+1)) * 100 < (if e k < 0 then -(e k) else e k) := Bs.linear_ode_rows
 
 /-! ### the abstract lemmas (any monoid, any flows, any step size) -/
 open Flow in
